@@ -1036,6 +1036,29 @@ def u_flatten(ctx):
         vals = flatten_values(ctx, m, space, ctx.n(3, 5), ctx.n(3, 5), i * 100)
         run_flatten(ctx, m, space, vals, "nested" if m["k"] in ("tuple", "dict") else "leaf")
         ctx.monitor("spaces_flattened")
+        # the numbers determine the sample: a Dict member whose OrderedDict was filled in another key order
+        # is the same sample (contains() accepts it) and must flatten to the same vector, laid out in the
+        # space's own key order
+        if m["k"] == "dict" and len(m["items"]) >= 2:
+            for v in vals[:3]:
+                if not isinstance(v, OrderedDict):
+                    continue
+                keys = list(v.keys())
+                perm = OrderedDict((k, v[k]) for k in reversed(keys))
+                try:
+                    if not bool(space.contains(perm)):
+                        ctx.monitor("permuted_dict_members_not_accepted_by_contains")
+                        continue
+                    a = np.asarray(space.flatten_sample(v))
+                    b = np.asarray(space.flatten_sample(perm))
+                except Exception as e:  # noqa: BLE001
+                    ctx.violation("dict-flatten-raises-on-permuted-member", {"space": str(m)[:200], "err": repr(e)[:200]})
+                    continue
+                ctx.case({"space": str(m)[:200], "rel": "permuted-member-flatten", "i": i}, nontrivial=True, cls="flatten/dict-permuted-member")
+                ctx.monitor("permuted_dict_members_flattened")
+                if a.shape != b.shape or not np.array_equal(a, b, equal_nan=True):
+                    ctx.violation("dict-flatten-depends-on-sample-insertion-order",
+                                  {"space": str(m)[:300], "space_order": a[:12], "permuted_member": b[:12]})
     # indices beyond float32's integer range (2**24): neighbours must still be told apart
     for n in (2**24 + 3, 2**25, 2**31 - 1):
         m = {"k": "discrete", "n": n}
@@ -1050,6 +1073,7 @@ def u_flatten(ctx):
     ctx.require("flatten_outputs_checked", 500)
     ctx.require("flatten_pairs_compared", 2000)
     ctx.require("flatten_near_pairs", 100)
+    ctx.require("permuted_dict_members_flattened", 5)
 
 
 # ---------------------------------------------------------------------------------- equality / hashing
